@@ -277,6 +277,15 @@ class Scratch:
         by_unit = {}
         for ob in obligations:
             by_unit.setdefault(ob.unit, []).append(ob)
+        # units whose helper vocabulary is used by an injected unit are injected too
+        changed = True
+        while changed:
+            changed = False
+            for u in list(by_unit):
+                for d in inj["files"][u].get("deps", []):
+                    if d not in by_unit:
+                        by_unit[d] = parse_unit(d)
+                        changed = True
         harness_index = {}  # harness fn -> (ob, role, region)
         # prelude at the crate root
         gen = self.path / "verif_gen"
@@ -296,7 +305,7 @@ class Scratch:
             text += "\n// ---- replay entry points are appended below on demand ----\n"
             (gen / f"{unit}.rs").write_text(text)
             self._append(info["file"],
-                         f'\n#[cfg(any(kani, verif_replay))]\n#[path = "{gen}/{unit}.rs"]\nmod verif_kani_{unit};\n')
+                         f'\n#[cfg(any(kani, verif_replay))]\n#[path = "{gen}/{unit}.rs"]\npub(crate) mod verif_kani_{unit};\n')
             self.modpaths[unit] = info["module"] + f"::verif_kani_{unit}"
         # attribute contracts
         for ac in inj.get("attr_contracts", []):
